@@ -18,7 +18,7 @@ RULE = ("per-run seed -> a corpus of 40-300 documents over a 5-9 word vocabulary
         "(segment layouts, optional deletions and merges) with posting block limit in {1,2,3,4,8,16} so that posting lists "
         "span many blocks + 8 generated query trees (boosts, nested boolean operators, negation, DisjunctionMax, ranges, "
         "phrases) + a weighting model drawn from BM25F (random B/K1, per-field B), TF_IDF, Frequency, PL2, DFree, "
-        "MultiWeighting, ReverseWeighting, FunctionWeighting + TopCollector knobs. For each query and k in {1,2,3,5,10} the "
+        "MultiWeighting, ReverseWeighting, FunctionWeighting + knobs (ArrayUnionMatcher part size 4..2048). For each query and k in {1,2,3,5,10} the "
         "limited search is compared with the prefix of the exhaustive ranking computed on the same simulated state, with and "
         "without filter / mask / terms=True. Runs where neither block skipping nor matcher replacement engaged are counted "
         "as trivial. distinct = distinct event-log SHA-256 x queries.")
